@@ -61,7 +61,10 @@ impl TryFrom<&str> for TopicName {
         }
 
         #[cfg(not(feature = "__notopiccheck"))]
-        if value[1..].starts_with(RESERVED_NAMESPACE) {
+        if value
+            .strip_prefix('/')
+            .is_some_and(|v| v.starts_with(RESERVED_NAMESPACE))
+        {
             return Err(SeliumError::ReservedNamespaceError);
         }
 
